@@ -110,6 +110,20 @@ N = {
  "se5-C16-m2": ("retry-tagged methods keep retrying on a Go error from sendRequest while the context is live", "retry-tagged reverse proxy method called with a context that is not the handler's, client gone", "needed a retry-tagged reverse method and handlers that call back with a detached context in C16"),
  "se5-C18-m1": ("a notification whose write fails is answered twice: the second send blocks the connection loop for ever", "write-side failure + caller context cancelled (xrpc.cancel notification) + close", "caught as found (C18 closer-returns)"),
  "se5-C18-m2": ("client-side channel buffer bounded at 8192 values; the sink then blocks under the channel-handler lock", "subscriber stalled with > 8200 pending values, then close", "needed the flood family in C18 (9000 values to a stalled subscriber, then close; 1 run in 2000)"),
+ "sf6-C04-m1": ("per-client cache of proxy functions keyed by wire method + signature: a later field with the same wire method inherits the first one's retry / notify flags", "client merged from two structs sharing a method, the earlier one retry-tagged; cut after the handler ran", "needed a proxy merged from two structs (ProxyPre.CallRetryFirst in front of Proxy.Call) in the fault family"),
+ "sf6-C04-m2": ("HTTP client re-dials on any non-timeout *net.OpError (Op == dial check missing): a reset after the handler ran re-POSTs the request", "http transport, RST between execution and response", "caught as found (C04 at-most-once, http-cut family)"),
+ "sf6-C06-m1": ("channel-returning methods looked up by requested name: an aliased subscription gets done(false), its context cancelled at once", "subscription through a server-side alias", "needed aliased subscriptions (T.SubAlias) in C06 / C07 / C08"),
+ "sf6-C06-m2": ("setupPings moved before the connection swap in tryReconnect: pong / ping handlers land on the dead connection", "reconnect, then a quiet period longer than the timeout", "caught as found (C17 healthy-after-reconnect)"),
+ "sf6-C07-m1": ("client-side channel sink recycles decode targets without resetting them", "element type with optional / slice / map / pointer parts, consumer-paced stream", "needed struct elements with optional pointer, slice and map parts, re-verified after delivery"),
+ "sf6-C07-m2": ("closing one of our output channels also deletes chanHandlers[id] - the peer's id space", "streams in both directions on one connection with coinciding ids", "caught as found by C16's reverse subscriptions; forward subscriptions next to reverse traffic were added to C16 as well"),
+ "sf6-C10-m1": ("shared prologue of handleChanMessage / handleChanClose only checks for one param: xrpc.ch.val [N] with a live N indexes params[1]", "one-param xrpc.ch.val for a live channel id", "caught as found (C10 hostile-server; the first evaluation was lost to a harness edit in progress)"),
+ "sf6-C10-m2": ("size limit taken from Content-Length only, body read through a LimitReader: an undeclared-length body is truncated and executed", "chunked POST or HandleRequest, first L bytes parse on their own", "needed chunked / HandleRequest modes and valid-prefix oversize bodies in C10's size family"),
+ "sf6-C13-m1": ("id-less frames get a nil response writer: a panicking / unknown / ill-typed notification dereferences it outside doCall's recover", "notification whose handler panics, over websocket", "caught as found (C13 crash)"),
+ "sf6-C13-m2": ("doCall re-panics http.ErrAbortHandler", "panic payload is exactly that sentinel", "needed sentinel panic payloads (http.ErrAbortHandler, context.Canceled, io.EOF) in C13 - added on reading the summary, before the first evaluation"),
+ "sf6-C17-m1": ("ping goroutine sets a write deadline of 2 ping intervals and never clears it", "a write stalled longer than 2 ping intervals but shorter than the timeout", "caught by C14 (long write stalls, truncated message), not by C17, which has no write stalls"),
+ "sf6-C17-m2": ("pings suppressed while the client has written something during the last interval", "server without pings + outbound-only traffic for longer than the timeout", "caught as found (C17 healthy-link-kept)"),
+ "sf6-C20-m1": ("Content-Length for seekable readers computed by seeking to the end and back to offset 0", "seekable non-memory reader passed at a non-zero offset", "needed reader source kinds in C20 (section reader behind a consumed prefix, length-less reader, partly consumed bytes.Reader) - added on reading the summary"),
+ "sf6-C20-m2": ("16-slot semaphore around the upload handler, released only when the stream was consumed", "> 16 concurrent reader calls whose handlers wait for each other before reading", "needed the barrier family in C20 (5-33 concurrent calls, handlers meet before reading)"),
  "sd4-C20-m2": ("server defaults hoisted into a package variable: all servers share one paramDecoders map", ">= 2 reader-enabled servers in one process", "needed a second reader-enabled server in C20"),
 }
 
